@@ -117,6 +117,9 @@ def _run(pm: ProgramModel, ctx: Ctx, mb: ModelBuilder, cd: Codec) -> None:
         values[f"list-in-list-of-one:{sk}"] = [[sv]]
         values[f"map-with-list-of-one:{sk}"] = {"k": [sv], "z": 1}
     values["list-of-lists"] = [[1, 2], [3]]
+    values["map-with-key-abstract"] = {"abstract": None, "level": 2}
+    values["map-with-key-abstract-true"] = {"kind": {"abstract": True}, "z": 1}
+    values["list-of-maps-with-key-abstract"] = [{"abstract": None}, {"k": 1}]
     for vk, v in values.items():
         root = mb.feature("Root")
         a = mb.feature("A")
